@@ -55,7 +55,7 @@ def run_rewrites(ctx, pid, depth, nshell=None, simulate=None, seed=0):
     return init0, states
 
 
-def base_shells(seed, pid, init0):
+def base_shells(seed, pid, init0, variant=0):
     """Real parameters of the original shells (angular momentum, centre, type, exponents per primitive id)."""
     rng = cg.rng_for(seed, pid, "base", len(init0))
     out = []
@@ -74,6 +74,13 @@ def base_shells(seed, pid, init0):
                     "type": rng.choice(["cartesian", "spherical"]), "exps": exps})
     if twins:
         out[0]["type"], out[1]["type"] = ("cartesian", "spherical") if rng.random() < 0.5 else ("spherical", "cartesian")
+    if variant == 1:
+        # the generalized shell (two or more columns) is pure and has angular momentum; the segmented one is Cartesian with l >= 1
+        gen = max(range(len(init0)), key=lambda k_: init0[k_]["M"])
+        out[gen]["type"], out[gen]["l"] = "spherical", max(1, min(out[gen]["l"], 2))
+        for k_, o_ in enumerate(out):
+            if k_ != gen:
+                o_["type"], o_["l"] = "cartesian", max(1, min(o_["l"], 2))
     return out
 
 
@@ -113,8 +120,9 @@ def public(gb, eri):
 
 def replay_state(arg):
     from .. import gb
-    pid, seed, init0, st, eri = arg
-    base = base_shells(seed, pid, init0)
+    pid, seed, init0, st, eri = arg[:5]
+    variant = arg[5] if len(arg) > 5 else 0
+    base = base_shells(seed, pid, init0, variant)
     start = [{"orig": k + 1, "prims": list(range(1, s["K"] + 1)),
               "cols": [{"ocol": m + 1, "sign": 1, "scale": [1, 1], "coef": [c0(k + 1, p + 1, m + 1) for p in range(s["K"])]}
                        for m in range(s["M"])]} for k, s in enumerate(init0)]
@@ -377,7 +385,7 @@ def run(pid, tier, seed, only_case=None):
     quick = tier == "quick"
     if only_case is not None:
         if only_case["kind"] == "state":
-            r = replay_state((pid, only_case["seed"], only_case["init0"], only_case["state"], only_case["eri"]))
+            r = replay_state((pid, only_case["seed"], only_case["init0"], only_case["state"], only_case["eri"], only_case.get("variant", 0)))
         elif only_case["kind"] == "symmetry":
             r = replay_symmetry((only_case["seed"], only_case["n"]))
         else:
@@ -398,6 +406,7 @@ def run(pid, tier, seed, only_case=None):
         sets = [(init0, sa), (init0, sb)]
     cases = []
     seen = set()
+    seen_kinds = set()
     for init0, states in sets:
         for st in states:
             key = (len(init0), repr(st["basis"]))
@@ -408,16 +417,25 @@ def run(pid, tier, seed, only_case=None):
                 continue                      # quick: every depth-1 state, a third of the deeper ones
             if not quick and pid == "C13" and st.get("depth", 0) >= 3 and (len(seen) + seed) % 8:
                 continue                      # thorough: TLC checks every depth-3 state, an eighth of them is replayed
-            eri = (len(cases) % (12 if quick else 2) == 0 or pid == "C11") and len(init0) <= 2
-            cases.append((pid, seed, init0, st, eri))
+            # the four-index array: every 12th state (thorough: every other one), the first state produced by each kind of
+            # rewrite, and never a state with more than three primitives in a shell (the repulsion kernel needs memory ~ K^4:
+            # a thorough run with five-primitive f shells was killed by the system at 7.5 GB per worker)
+            kind_ = (len(init0), tuple(st.get("last", ("?",))[:1]))
+            small = all(len(sh_["prims"]) <= 3 for sh_ in st["basis"])
+            eri = (len(cases) % (12 if quick else 2) == 0 or pid == "C11" or kind_ not in seen_kinds) and len(init0) <= 2 and small
+            if eri:
+                seen_kinds.add(kind_)
+            cases.append((pid, seed, init0, st, eri, 0))
+            if eri and pid == "C13":
+                cases.append((pid, seed, init0, st, eri, 1))     # the same state on the second set of base shells
     out = common.pmap(replay_state, cases)
     for c, r in zip(cases, out):
-        cc = {"kind": "state", "seed": seed, "init0": c[2], "state": c[3], "eri": c[4]}
+        cc = {"kind": "state", "seed": seed, "init0": c[2], "state": c[3], "eri": c[4], "variant": c[5]}
         if common.impl_failure(ctx, r, cc, "meta", pid):
             continue
         ctx.replayed += 1
         ctx.evaluations += r["n"] - 1
-        ctx.case_done((pid, repr(c[3]["basis"])))
+        ctx.case_done((pid, repr(c[3]["basis"]), c[5]))
         ctx.note_dev("relative deviation from the output law", r["dev"])
         for v in r["violations"]:
             ctx.violation({"function": v.split(" ")[0].split(":")[0]}, v, {"module": "meta", "case": cc})
